@@ -61,14 +61,20 @@ CONNECTIVES = ['_checks:TrueCheck.__call__', '_checks:FalseCheck.__call__', '_ch
 PRINTERS = ['_checks:TrueCheck.__str__', '_checks:FalseCheck.__str__', '_checks:Check.__str__',
             '_checks:NotCheck.__str__', '_checks:AndCheck.__str__', '_checks:OrCheck.__str__']
 
+REDUCERS = ['_checks:AndCheck.add_check', '_checks:OrCheck.add_check', '_checks:OrCheck.pop_check'] + [
+    '_parser:ParseState.' + n for n in ('_wrap_check', '_make_and_expr', '_make_or_expr', '_make_not_expr',
+                                       '_extend_and_expr', '_extend_or_expr', '_mix_or_and_expr')]
+
 PROPS['C01'] = Prop(
-    functions=CONNECTIVES,
+    functions=CONNECTIVES + REDUCERS,
     bounded=[('bounded.lang', 'c01')],
     level='other',
     technique='contract-based deductive verification of the evaluation side (own VC generator + z3); the parser side is a labelled bounded stand-in',
     explanation='PROVED for all inputs: and/or/not/@/! evaluate as the Boolean connectives over their operands (first '
                 'denier / first allower / negation, exceptions of operands propagate), and _check passes target, '
-                'credentials and enforcer unchanged. BOUNDED (not proved): that the shift-reduce parser builds the '
+                'credentials and enforcer unchanged; each of the seven reducers (and add_check/pop_check) builds exactly '
+                'the tree its reduction prescribes and writes nothing else (incl. the re-balancing of `A or B and C`). '
+                'BOUNDED (not proved): that the greedy shift-reduce driver and the tokenizer apply them so that the '
                 'tree the documented precedence prescribes -- every symbol sequence up to length 6 (quick) / 8 '
                 '(thorough) against an independent recursive-descent reading, under all truth assignments, with '
                 'lexical variants and list-of-lists shapes.',
